@@ -35,4 +35,14 @@ func init() {
 	}
 	Props["C11"].Engines = append(Props["C11"].Engines, &concEngine{opts: c11})
 	Props["C11"].Conc = c11
+	// C06 (sequential half): exactly-once accounting and causes per step, including writes over
+	// expired-but-unswept entries (the concurrent runs rarely move the clock).
+	Props["C06"].Engines = append(Props["C06"].Engines, &seqEngine{
+		profile: Profile{Prop: "C06", Executor: []string{"sync"},
+			OpW: w(defaultOpW, map[string]int{"set": 18, "setifabsent": 10, "compute": 8, "computeifabsent": 6, "invalidate": 8, "invalidateall": 2, "advance": 16, "cleanup": 5})},
+		nontrivial: func(o *SeqOutcome) bool {
+			g, _ := probeSum(o, "op:", "@expired-unswept")
+			return g > 0 || o.Probes["auto-overflow"] > 0 || o.Probes["auto-expiration"] > 0
+		},
+	})
 }
